@@ -53,6 +53,8 @@ func scalarText(v any) string {
 		return "null"
 	case json.Number:
 		return string(x)
+	case litNum:
+		return string(x)
 	case string:
 		return quoted(x)
 	case bool:
